@@ -72,6 +72,8 @@ def build_static(case):
     def k_of(r):
         if r not in ks:
             ks[r] = int(rng.integers(kmin, kmax + 1))
+            if case.get("border_kmin") is not None and sum(1 for c_ in topo.ridges[r] if sub is None or c_ in sub) == 1:
+                ks[r] = max(ks[r], int(case["border_kmin"]))     # interfaces on the outline keep interior points
         return ks[r]
     # storage choices (orientation, cycle start, ids, insertion order) come from their own stream so that variants of one
     # physical tissue share the geometry stream
@@ -166,7 +168,11 @@ def build_series(case, nframes=2, times=None, disp=None, renumber=False):
             return ks[r]
         if disp is not None and disp[t] is not None:
             topo = gen.Topo(topo.J + disp[t], topo.cells, topo.sites)
-        if renumber:
+        if renumber == "zero":
+            # ids shifted cyclically so that one junction of every frame carries the id 0
+            jz = int(np.random.default_rng(case["seed"] + 1000 + t).integers(0, 3))
+            vmap = (lambda i, jz=jz: (i + 100000 - jz) % 100000)
+        elif renumber:
             r2 = np.random.default_rng(case["seed"] + 1000 + t)
             perm = r2.permutation(4000)
             vmap = (lambda i, perm=perm: int(perm[i % 4000]) + 4000 * (i // 4000))
